@@ -63,10 +63,18 @@ def check(ck):
     puts = [(n, c) for n in g.live_nodes() for c in node_calls(n) if dump(c.func) == "self._queue.put"]
     ck.require(len(puts) == 1, "C09.1", "%s: one put" % q.fn(fenq), "one put", "enqueue performs %d puts" % len(puts), q.loc(fenq, fenq.node))
     for (n, c) in puts:
-        item = c.args[0] if c.args else None
+        item = c.args[0] if c.args else kwarg(c, "item")
+        item_node = n
+        if isinstance(item, ast.Name):
+            # the item built in a local first: `task = (method, args, kwargs, future)` ... put(task, ...)
+            ds_ = prov.rd_of(g).get(n.id, {}).get(item.id, frozenset())
+            dn_ = [g.nodes[i] for i in ds_]
+            if len(dn_) == 1 and dn_[0].kind == "stmt" and isinstance(dn_[0].ast, ast.Assign) and len(dn_[0].ast.targets) == 1 \
+                    and isinstance(dn_[0].ast.targets[0], ast.Name) and isinstance(dn_[0].ast.value, ast.Tuple):
+                item, item_node = dn_[0].ast.value, dn_[0]
         okk = isinstance(item, ast.Tuple) and len(item.elts) == 4
         if okk:
-            ts = [prov.origin(g, n, e) for e in item.elts]
+            ts = [prov.origin(g, item_node, e) for e in item.elts]
             va = fenq.node.args.vararg.arg if fenq.node.args.vararg else None
             kw = fenq.node.args.kwarg.arg if fenq.node.args.kwarg else None
             okk = ts[0] == ("param", "method") and ts[1] == ("param", va) and ts[2] == ("param", kw) and \
@@ -77,7 +85,7 @@ def check(ck):
         pd = postdominators(g, [g.return_exit.id], NORMAL)
         ck.require(n.id in pd[g.entry.id], "C09.1", "%s: put on every normal path" % q.fn(fenq), "post-dominates the entry",
                    "there is a normal path through enqueue that returns a future without queuing the task", q.loc(fenq, n))
-        fut_defs = prov.rd_of(g).get(n.id, {}).get(dump(item.elts[3]), frozenset()) if isinstance(item, ast.Tuple) and len(item.elts) == 4 and isinstance(item.elts[3], ast.Name) else frozenset()
+        fut_defs = prov.rd_of(g).get(item_node.id, {}).get(dump(item.elts[3]), frozenset()) if isinstance(item, ast.Tuple) and len(item.elts) == 4 and isinstance(item.elts[3], ast.Name) else frozenset()
         for rn in [x for x in g.live_nodes() if x.kind == "return"]:
             same = rn.ast is not None and isinstance(rn.ast.value, ast.Name) and isinstance(item, ast.Tuple) and len(item.elts) == 4 and \
                 dump(rn.ast.value) == dump(item.elts[3]) and prov.rd_of(g).get(rn.id, {}).get(rn.ast.value.id) == fut_defs
